@@ -288,6 +288,32 @@ def commit_check_first(ctx, only=None):
         _require([table[0], table[3]], [hits[0], hits[3]], nm)
         qs.append(PQuery("%s: previous-root check precedes every effect" % nm, cfg, ops, ["checked"], {},
                          scenario=scen, key="%s:effect before previous-root check" % nm))
+        # second rule: once anything was applied (the shared root / commit marker stored, the rollback log
+        # appended, the overlay marked, Store::commit started) no *rejecting* check may follow - every
+        # check that can still refuse the changeset (previous root, overlay parent marker) comes first
+        ops2 = {}
+        n_store = 0
+        for bb in cfg.order:
+            b = cfg.blocks[bb]
+            o = []
+            for i, st in enumerate(b.stmts):
+                txt = pathsmt.src_text(b.spans[i]) if i < len(b.spans) else ""
+                if re.match(r"\(.*\) = ", st) and re.search(r"shared\.(root|last_commit_marker)\s*=[^=]", txt or ""):
+                    o.append(("set", "applied"))
+                    n_store += 1
+            if b.call:
+                callee, text = b.call[1], b.call[3] or ""
+                if re.search(r"Rollback::commit_nonblocking|Rollback::commit\b|mark_committed|Store::commit", callee):
+                    o.append(("set", "applied"))
+                if re.search(r"parent_matches_marker", callee) or (re.search(r"PartialEq.*::(ne|eq)", callee) and re.search(r"shared\.root\s*!=|prev_root", text)):
+                    o.insert(0, ("bad_if", "applied"))
+            if o:
+                ops2[bb] = o
+        if n_store == 0:
+            raise Unmatched("no store to shared.root found in " + nm)
+        scen2 = {"Overlay::commit": "c12_overlay_parent_rejected", "Overlay::try_commit_nonblocking": "c12_overlay_parent_rejected_nb"}.get(nm, scen)
+        qs.append(PQuery("%s: no rejecting check after the first applied effect" % nm, cfg, ops2, ["applied"], {},
+                         scenario=scen2, key="%s:rejecting check after an effect" % nm))
         qs.append(PQuery("%s: Store::commit is reachable" % nm, cfg, {bb: [("bad", None)] for bb in hits[3]}, [], {}, expect="sat"))
         enc.add("%s @ nomt/src/%s" % (nm, fh))
     return qs, enc
